@@ -30,9 +30,11 @@ VARIABLES l,      \* next line of the trace
           r,      \* Q(env, cfg) of the case in progress
           cur,    \* its Begin event
           skip,   \* TRUE: rest of this case is not examined (after a MISMATCH or for don't-care cases)
-          cpath   \* canonical path the library chose among the admitted ones
+          cpath,  \* canonical path the library chose among the admitted ones
+          creqv,   \* the specification's canonical request / string to sign of the case (computed once at Begin;
+          stsv     \*   <<>> when the request does not get that far or a digest is missing from the oracle table)
 
-tvars == <<vars, l, r, cur, skip, cpath>>
+tvars == <<vars, l, r, cur, skip, cpath, creqv, stsv>>
 
 ------------------------------------------------------------------------------
 Count(reg) == TLCSet(reg, TLCGet(reg) + 1)
@@ -45,13 +47,13 @@ HasSha(b, x) == ShaEntries(b, x) # {}
 ShaHex(b, x) == b.oracle.sha[CHOOSE i \in ShaEntries(b, x) : TRUE].out
 \* ... under the signing key derived from the PROVIDER's secret for the date, region and service the
 \* specification says the provider is asked for
-SigEntries(b, rr, sts) == {i \in 1..Len(b.oracle.sig) :
+SigEntries(b, rr, ss) == {i \in 1..Len(b.oracle.sig) :
                              LET e == b.oracle.sig[i] IN
-                             /\ e.sts = sts /\ e.secret = b.script.secret
+                             /\ e.sts = ss /\ e.secret = b.script.secret
                              /\ e.kdate = DateYMD(rr.pdate[1], rr.pdate[2], rr.pdate[3])
                              /\ e.region = b.cfg.region /\ e.service = b.cfg.service}
-HasSig(b, rr, sts) == SigEntries(b, rr, sts) # {}
-SigHex(b, rr, sts) == b.oracle.sig[CHOOSE i \in SigEntries(b, rr, sts) : TRUE].out
+HasSig(b, rr, ss) == SigEntries(b, rr, ss) # {}
+SigHex(b, rr, ss) == b.oracle.sig[CHOOSE i \in SigEntries(b, rr, ss) : TRUE].out
 
 EnvOf(b) == [method |-> b.env.method, path |-> b.env.path, query |-> b.env.query,
              hdrs |-> [i \in 1..Len(b.env.hdrs) |-> <<b.env.hdrs[i][1], b.env.hdrs[i][2]>>], body |-> b.env.body]
@@ -75,6 +77,10 @@ CReqOf(b, rr, cp) ==
       \o <<LF>> \o SignedLine(rr.signed) \o <<LF>> \o ShaHex(b, rr.payload)
 StsOf(b, rr, cp) == rr.stsPre \o ShaHex(b, CReqOf(b, rr, cp))
 
+CReqVal(b, rr, cp) == IF ~rr.dc /\ rr.err.rule \notin 1..10 /\ HasSha(b, rr.payload) THEN CReqOf(b, rr, cp) ELSE <<>>
+StsVal(b, rr, cq) == IF rr.err.rule = 0 /\ ~rr.dc /\ cq # <<>> /\ HasSha(b, cq) THEN rr.stsPre \o ShaHex(b, cq) ELSE <<>>
+SigGoodV(b, rr, st) == st # <<>> /\ HasSig(b, rr, st) /\ rr.sig = SigHex(b, rr, st)
+
 \* Dolev-Yao reading of rule 16: the presented signature is good iff it is the harness-evaluated
 \* HMAC of exactly the specification's string-to-sign; a digest the harness never evaluated
 \* cannot have been presented by a party without the key (collision-freedom)
@@ -94,24 +100,48 @@ FormKindOf(i, rr) ==
           THEN Rec[EndIdx(i)].kind ELSE "InvalidBodyEncoding")
     ELSE IF rr.err.rule = 3 THEN rr.err.kind ELSE "InvalidBodyEncoding"
 
-ViewOf(i, b, rr, cp) ==
+ViewOf(i, b, rr, st) ==
     LET first == IF rr.tsdc /\ TsRefused(i) /\ rr.err.rule \in {0, 11, 12, 13, 14} THEN {10}
                  ELSE IF rr.err.rule # 0 THEN {rr.err.rule} ELSE {}
-        sigbad == IF first = {} /\ ~SigGood(b, rr, cp) THEN {16} ELSE {}
+        sigbad == IF first = {} /\ ~SigGoodV(b, rr, st) THEN {16} ELSE {}
     IN [defects  |-> first \cup sigbad,
         carrier  |-> IF rr.err.rule \in {1, 2, 3} THEN "hdr" ELSE rr.carrier,
         formKind |-> FormKindOf(i, rr)]
 
 ------------------------------------------------------------------------------
+\* Everything the specification derives from a case's recorded bytes is evaluated ONCE per Begin line, as a
+\* constant of the trace (TLC re-evaluates LET definitions at every reference inside actions, but caches
+\* them in constant definitions).
+BeginLines == {i \in 1..Len(Rec) : Rec[i].ev = "Begin"}
+CaseInfo(i) ==
+    LET b   == Rec[i]
+        rr  == QOf(b)
+        obs == CanonIdx(i)
+        cp  == IF obs # {} /\ Rec[CHOOSE j \in obs : TRUE].cpath \in rr.cpaths
+               THEN Rec[CHOOSE j \in obs : TRUE].cpath
+               ELSE CHOOSE p \in rr.cpaths : \A p2 \in rr.cpaths : Len(p) <= Len(p2)
+        cq  == CReqVal(b, rr, cp)
+        st  == StsVal(b, rr, cq)
+    IN [r |-> rr, cp |-> cp, creq |-> cq, sts |-> st, view |-> ViewOf(i, b, rr, st)]
+\* evaluated eagerly once (in TraceInit) and kept in a TLC register; Tab is the cheap lookup
+Table == [i \in BeginLines |-> CaseInfo(i)]
+Tab(i) == TLCGet(20)[i]
+
+------------------------------------------------------------------------------
 TraceInit ==
     /\ Init
     /\ l = 1 /\ r = QDefaults @@ [err |-> NoErr, dc |-> TRUE] /\ cur = 0 /\ skip = TRUE /\ cpath = <<>>
-    /\ TLCSet(1, 0) /\ TLCSet(2, 0) /\ TLCSet(3, 0)
+    /\ creqv = <<>> /\ stsv = <<>>
+    /\ TLCSet(1, 0) /\ TLCSet(2, 0) /\ TLCSet(3, 0) /\ TLCSet(21, FALSE)
+
+\* the table is evaluated by the first step, i.e. on a worker thread (whose stack is sized by -Xss; the initial
+\* predicate runs on the JVM's main thread, whose stack is not)
+EnsureTable == TLCGet(21) \/ (TLCSet(20, TLCEval(Table)) /\ TLCSet(21, TRUE))
 
 Ev == Rec[l]
 BE == Rec[cur]                      \* the Begin event of the case in progress
 Adv == l' = l + 1
-Keep == UNCHANGED <<r, cur, skip, cpath>>
+Keep == UNCHANGED <<r, cur, skip, cpath, creqv, stsv>>
 StageNames == {"StageCanon", "StageParams", "StageAuth", "StagePre", "StageSts"}
 
 \* an event no specification action accepts: report it, skip the rest of the case, resume at the
@@ -119,7 +149,7 @@ StageNames == {"StageCanon", "StageParams", "StageAuth", "StagePre", "StageSts"}
 RejectEv(info) ==
     /\ Mismatch(ToJson(info))
     /\ skip' = TRUE /\ pc' = P("idle")
-    /\ UNCHANGED <<q, script, prov, calls, result, nval, total, r, cur, cpath>>
+    /\ UNCHANGED <<q, script, prov, calls, result, nval, total, r, cur, cpath, creqv, stsv>>
 Where == [at |-> Ev.ev, pc |-> pc, specResult |-> result, view |-> q, calls |-> calls,
           specRule |-> r.err.rule, specKind |-> r.err.kind]
 
@@ -128,14 +158,11 @@ TrBegin ==
     /\ Ev.ev = "Begin" /\ Adv
     /\ (pc # P("idle") /\ ~skip) => Mismatch("previous case has no End event (abnormal termination)")
     /\ LET b   == Ev
-           rr  == QOf(b)
-           obs == CanonIdx(l)
-           cp  == IF obs # {} /\ Rec[CHOOSE j \in obs : TRUE].cpath \in rr.cpaths
-                  THEN Rec[CHOOSE j \in obs : TRUE].cpath
-                  ELSE CHOOSE p \in rr.cpaths : \A p2 \in rr.cpaths : Len(p) <= Len(p2)
-           v   == ViewOf(l, b, rr, cp)
+           rr  == Tab(l).r
+           cp  == Tab(l).cp
+           v   == Tab(l).view
            sd  == StructuralDefects(v)
-       IN /\ r' = rr /\ cur' = l /\ cpath' = cp
+       IN /\ r' = rr /\ cur' = l /\ cpath' = cp /\ creqv' = Tab(l).creq /\ stsv' = Tab(l).sts
           /\ UNCHANGED <<nval, total>>
           /\ IF rr.dc
              THEN \* the statement leaves this input open: only "no panic" is required
@@ -225,13 +252,11 @@ StageOk(e) ==
             ELSE IF r.tsdc /\ e.res = "err" THEN ErrIs(e, "IncompleteSignature")
             ELSE /\ r.err.rule \notin 1..9
                  /\ e.res = "ok" /\ e.inst = r.inst
-                 /\ HasSha(BE, r.payload)
-                 /\ e.creq = CReqOf(BE, r, cpath)
+                 /\ creqv # <<>> /\ e.creq = creqv
       [] e.ev = "StagePre" ->
             IF r.err.rule \in {11, 12, 13, 14} THEN ErrIs(e, r.err.kind) ELSE r.err.rule = 0 /\ e.res = "ok"
       [] e.ev = "StageSts" ->
-            /\ r.err.rule = 0 /\ HasSha(BE, r.payload) /\ HasSha(BE, CReqOf(BE, r, cpath))
-            /\ e.sts = StsOf(BE, r, cpath)
+            /\ r.err.rule = 0 /\ stsv # <<>> /\ e.sts = stsv
 TrStage ==
     /\ Ev.ev \in StageNames /\ ~skip /\ Adv
     /\ IF StageOk(Ev) THEN UNCHANGED vars /\ Keep ELSE RejectEv(Where)
@@ -254,7 +279,7 @@ TrLeak ==
 TrInadm ==
     /\ Ev.ev = "Inadm" /\ Adv /\ Count(3)
     /\ skip' = TRUE /\ pc' = P("idle")
-    /\ UNCHANGED <<q, script, prov, calls, result, nval, total, r, cur, cpath>>
+    /\ UNCHANGED <<q, script, prov, calls, result, nval, total, r, cur, cpath, creqv, stsv>>
 
 \* ---- skipping: don't-care cases and the remainder of a rejected case; a panic is never allowed
 TrSkip ==
@@ -263,7 +288,7 @@ TrSkip ==
     /\ (Ev.ev \in {"Log", "Render"} /\ ~NoLeak(Ev)) => Mismatch("leak")
     /\ UNCHANGED vars
 
-TraceNext == l <= Len(Rec) /\ (TrBegin \/ TrPollReady \/ TrCall \/ TrPollFuture \/ TrEnd \/ TrStage \/ TrLeak
+TraceNext == l <= Len(Rec) /\ EnsureTable /\ (TrBegin \/ TrPollReady \/ TrCall \/ TrPollFuture \/ TrEnd \/ TrStage \/ TrLeak
                                \/ TrInadm \/ TrSkip)
 TraceSpec == TraceInit /\ [][TraceNext]_tvars
 
